@@ -51,18 +51,23 @@ class _modules_copyable:
     context switches.
     """
 
+    __singleton_lock__ = RLock()
+
     def __new__(cls, *args, **kwargs):
         """
-        Make this class a singleton (there exists at most one instance).
+        Make this class a singleton (there exists at most one instance), whose
+        state is initialised exactly once: re-evaluating `_modules_copyable()`
+        while a copy is in progress (nested or concurrent copies) must not
+        reset the reference count or replace the lock.
         """
-        if not hasattr(cls, "__instance__"):
-            cls.__instance__ = super().__new__(cls, *args, **kwargs)
-        return cls.__instance__
-
-    def __init__(self):
-        self.lock = RLock()
-        self.refcount = 0
-        self.patched_table = False
+        with cls.__singleton_lock__:
+            if not hasattr(cls, "__instance__"):
+                instance = super().__new__(cls, *args, **kwargs)
+                instance.lock = RLock()
+                instance.refcount = 0
+                instance.patched_table = False
+                cls.__instance__ = instance
+            return cls.__instance__
 
     def __enter__(self):
         with self.lock:
